@@ -1029,6 +1029,7 @@ class Server:
                                 connection.transfer_offset = connection.restart_offset
                             connection.restart_offset = 0
                         else:
+                            connection.restart_offset = 0
                             message = f"{cmd!r} not implemented"
                             connection.response("502", message)
                 if login_waiting is not None and not handlers:
